@@ -3,12 +3,13 @@
 patch.diff, the demonstration, meta.json (what it breaks, what it needs to manifest, what was run to confirm it, which check catches it)."""
 import os, sys, json, shutil, subprocess, re
 V = os.path.dirname(os.path.dirname(os.path.abspath(__file__)))
-props = sys.argv[1:] or sorted(d for d in os.listdir('/tmp/seed') if re.fullmatch(r'C\d\d', d))
+OFFSET = int(os.environ.get('SEED_OFFSET', '0'))      # round 2 of the seeding is stored as <prop>-3, <prop>-4
+props = [a for a in sys.argv[1:] if not a.startswith('--')] or sorted(d for d in os.listdir('/tmp/seed') if re.fullmatch(r'C\d\d', d))
 for P in props:
     for n in (1, 2):
         src = '/tmp/seed/%s/seed%d' % (P, n)
         if not os.path.exists(os.path.join(src, 'patch.diff')): continue
-        dst = os.path.join(V, 'seeded', '%s-%d' % (P, n)); shutil.rmtree(dst, ignore_errors=True); os.makedirs(dst)
+        dst = os.path.join(V, 'seeded', '%s-%d' % (P, n + OFFSET)); shutil.rmtree(dst, ignore_errors=True); os.makedirs(dst)
         shutil.copy(os.path.join(src, 'patch.diff'), dst)
         # demonstration: sources only, no build output, nothing above 300 kB
         def ignore(d, names): return [x for x in names if x in ('target', 'target-demo', '__pycache__') or (os.path.isfile(os.path.join(d, x)) and os.path.getsize(os.path.join(d, x)) > 300000)]
@@ -31,5 +32,19 @@ for P in props:
             summ = [l for l in txt.split('\n') if l.startswith(P + ' tier=')]
             out['detection'] = {'check': './check %s --tier quick' % P, 'violation_lines': vio[:3], 'summary': summ[-1] if summ else None,
                                 'caught': bool(vio), 'with_failing_input': bool(vio) and not all('no-failing-input-found' in v for v in vio)}
-            print(P, n, 'caught' if vio else 'MISSED', summ[-1] if summ else txt[-300:])
+            print(P, n + OFFSET, 'caught' if vio else 'MISSED', summ[-1] if summ else txt[-300:])
         json.dump(out, open(os.path.join(dst, 'meta.json'), 'w'), indent=1)
+
+# index of all seeds
+rows = ['# Seeded changes (written by independent sub-agents; none is ever committed to /repo)', '',
+        'Each directory: `patch.diff`, `demo/` (fails with the patch, passes without), `meta.json` (what it breaks, what it needs to manifest, how it was confirmed, what the quick check of its property reported with the patch applied).', '',
+        '| seed | change | needs to manifest | confirmed (tests green, demo fails/passes) | `./check <prop>` quick tier |', '|---|---|---|---|---|']
+for d in sorted(os.listdir(os.path.join(V, 'seeded'))):
+    mp = os.path.join(V, 'seeded', d, 'meta.json')
+    if not os.path.exists(mp): continue
+    m = json.load(open(mp)); c = m.get('confirmed_by_me', {}); det = m.get('detection', {})
+    ok = c.get('patch_applies') and 'ok.' in (c.get('tests_with_patch') or '') and c.get('demo_with_patch_exit') not in (None, '0') and c.get('demo_without_patch_exit') == '0'
+    cell = lambda x: (str(x or '')[:160]).replace('|', '/').replace('\n', ' ')
+    rows.append('| %s | %s | %s | %s | %s |' % (d, cell(m.get('summary')), cell(m.get('needs_to_manifest')), 'yes' if ok else 'see meta.json',
+                                               ('caught, failing input' if det.get('with_failing_input') else 'caught, no-failing-input-found') if det.get('caught') else 'MISSED'))
+open(os.path.join(V, 'seeded', 'INDEX.md'), 'w').write('\n'.join(rows) + '\n')
